@@ -310,6 +310,11 @@ def run_variant(ctx, tree, ns, bits, case, spec, step=None, taxa=None, labels=No
             result_tree = ctx.call(key, tree.extract_tree, node_filter_fn=lambda nd: id(nd) not in rej_ids,
                                    suppress_unifurcations=su, is_apply_filter_to_leaf_nodes=lf, is_apply_filter_to_internal_nodes=inf)
         elif variant == "extract_tree_with_taxa":
+            if len(comp) == 1 and labels is None and step is None:
+                # the one taxon that is not wanted has left the namespace (remove_taxon leaves trees alone): the request
+                # then names every member of the namespace, and still only the requested taxa may survive
+                ns.remove_taxon(Ctaxa[0])
+                ctx.cls("extract_tree_with_taxa:unwanted_leaf_taxon_no_longer_in_namespace")
             result_tree = ctx.call(key, tree.extract_tree_with_taxa, wrap(Ktaxa), suppress_unifurcations=su)
         elif variant == "extract_tree_with_taxa_labels":
             result_tree = ctx.call(key, tree.extract_tree_with_taxa_labels, wrap(real(K)), suppress_unifurcations=su)
